@@ -13,8 +13,8 @@ type GTok struct {
 	Pat  bool   // argument piece of a `pattern` statement
 }
 
-var kwPool = []string{"a", "leaf", "pattern", "p:ext", "é", "x-y", "container", "b2", "pattern"}
-var unqPool = []string{"b", "1..2", "/a/b", "é", "a+b", "+", "x:y", "true", "*/", "a/b/"}
+var kwPool = []string{"a", "leaf", "pattern", "p:ext", "é", "x-y", "container", "b2", "\uFEFFk", "z\u200B", "pattern"}
+var unqPool = []string{"b", "1..2", "/a/b", "é", "a+b", "+", "x:y", "true", "*/", "a/b/", "\uFEFF", "a\u2060b"}
 var fillers = []string{" ", " ", " ", "\n", "\t", "  ", "\n    ", "\r\n", " // c\n", "/* c */", " /* a\n * b */ ", "", "", "\n\t", " //\n", "/**/", "/***/", "/* é\t*/"}
 
 func quotedPiece(r *rand.Rand, pattern bool) (string, string) {
@@ -553,4 +553,71 @@ func PatternLookalikes() []Case {
 		}
 	}
 	return out
+}
+
+// FormatChars is a deterministic family around characters that look like nothing: U+FEFF (byte order mark),
+// U+200B, U+2060, U+00AD, U+200E, U+00A0, U+2028, U+0085, form feed, vertical tab.  For the reference reader
+// each is an ordinary character, one column wide, part of an unquoted token.  They are put at the very start
+// of the text (once, twice, followed by a blank, a tab, a line end, a comment), before / inside / after
+// tokens, inside strings and comments, and at the start of the second line, in front of accepted texts and
+// of texts with one fault (with the offset of the offending token for the C16 oracle where the prefix does
+// not change the roles of the tokens).
+func FormatChars() []Case {
+	var out []Case
+	zs := []string{"\uFEFF", "\u200B", "\u2060", "\u00AD", "\u200E", "\u00A0", "\u2028", "\u0085", "\f", "\v"}
+	type body struct {
+		text  string
+		off   int
+		class string
+	}
+	bodies := []body{
+		{"module m { namespace \"u\"; prefix p; }", -1, ""},
+		{"module m { namespace \"u\"; } }", 28, "rbrace"},
+		{"leaf a b c;", 7, "semi"},
+		{"leaf a \"x\\q\";", 9, "esc"},
+		{"leaf a { b 'c", 11, "sq"},
+		{"leaf a; \"k\" b;", 8, "kw"},
+		{"leaf a { b c; } /* open", 16, "cmt"},
+	}
+	for _, z := range zs {
+		// prefixes that end in white space or a comment make z a token (a keyword) of its own: no fault offset then
+		glued := []string{z, z + z}
+		apart := []string{z + " ", z + "\t", z + "\n", z + "\r\n", z + "/* c */", z + " // c\n", " " + z + " ", "\n" + z}
+		for _, b := range bodies {
+			for _, p := range glued {
+				c := Case{Text: p + b.text, Stream: "format_chars"}
+				if b.class != "" {
+					c.FaultOff, c.FaultClass = len(p)+b.off, b.class
+				}
+				out = append(out, c)
+			}
+			for _, p := range apart {
+				out = append(out, Case{Text: p + b.text, Stream: "format_chars"})
+				out = append(out, Case{Text: p + "x; " + b.text, Stream: "format_chars"})
+			}
+			// in the middle of the first line and at the start of the second
+			mids := []string{"a" + z + "b c; ", "a b" + z + "; ", "a \"x" + z + "y\"; ", "a /*" + z + "*/ b; ",
+				"a 'q" + z + "' { " + z + "; } ", "a b;\n" + z, "a {" + z + " b; } ", z + "a" + z + " " + z + ";\t",
+				"a b;" + z + " "} // the last one makes z a keyword of its own and the body's keyword its argument
+			for mi, m := range mids {
+				c := Case{Text: m + b.text, Stream: "format_chars"}
+				if b.class != "" && mi < len(mids)-1 {
+					c.FaultOff, c.FaultClass = len(m)+b.off, b.class
+				}
+				out = append(out, c)
+			}
+		}
+	}
+	return out
+}
+
+// WithBOM puts a byte order mark in front of a text that begins with a letter (it becomes part of the first
+// keyword) and moves the fault offset along; ok is false when the text does not begin with a letter or the
+// fault is at the first token, or (for a fault text) the first keyword is `pattern`, which would stop being
+// the pattern keyword and make its escapes a second fault.
+func WithBOM(text string, off int, class string) (string, int, bool) {
+	if text == "" || text[0] < 'a' || text[0] > 'z' || (class != "" && (off == 0 || strings.HasPrefix(text, "pattern"))) {
+		return text, off, false
+	}
+	return "\uFEFF" + text, off + 3, true
 }
